@@ -903,13 +903,15 @@ def unroll_reflective_loops(tree):
                 if isinstance(it, ast.Name) and consts.get(it.id) is not None:
                     it = consts[it.id]
                 if isinstance(it, (ast.Tuple, ast.List)) and 0 < len(it.elts) <= 8 and all(
-                        isinstance(e, ast.Constant) and isinstance(e.value, str) for e in it.elts) and reflective_only(st.body, st.target.id) and not any(
-                        isinstance(x, (ast.Break, ast.Continue, ast.Return, ast.Yield, ast.YieldFrom) + FUNC) for b in st.body for x in ast.walk(b)):
+                        isinstance(e, ast.Constant) and isinstance(e.value, str) for e in it.elts) and (
+                        reflective_only(st.body, st.target.id) or not any(isinstance(x, ast.Name) and x.id == st.target.id and isinstance(x.ctx, ast.Store)
+                                                                          for b in st.body for x in ast.walk(b))) and not any(
+                        isinstance(x, (ast.Break, ast.Continue, ast.Return) + FUNC) for b in st.body for x in ast.walk(b)):
                     for e in it.elts:
                         for b in st.body:
                             nb = _Replace(None, ast.Constant(value=e.value), st.target.id).visit(copy.deepcopy(b))
                             out.append(ast.fix_missing_locations(Fold().visit(nb)))
-                    log.append("unrolled reflective loop at line %d" % st.lineno)
+                    log.append("unrolled loop over a literal tuple of %d names at line %d" % (len(it.elts), st.lineno))
                     continue
             out.append(st)
         return out
